@@ -408,7 +408,7 @@ pub fn run(rep: &Report) {
     );
     rep.assume("keys generated inside a gap are near its ends for integer keys and extensions of the lower neighbour for byte strings");
     let n = match rep.tier {
-        Tier::Quick => 5_000u64,
+        Tier::Quick => 15_000u64,
         Tier::Thorough => 250_000u64,
     };
     run_cases(
